@@ -64,7 +64,8 @@ type c14Keys struct {
 	N         int
 	Members   []*Acct // validator set in force for the certified view, in validator-list order
 	Outs      []*Acct // three identities outside that set
-	Coll      int     // index (in Members) of the collector
+	Coll      int     // index (in Members) of the collector; -1: the collector is not a member of this set
+	CollAddr  string  // address of the collector
 	MemberSet map[string]bool
 	Thr       int
 
@@ -99,6 +100,38 @@ func newC14Keys(n, rot, coll int) *c14Keys {
 		return b
 	}
 	k.IDParent, k.IDCert, k.IDChild = mk("genesis"), mk("certified"), mk("child")
+	k.CollAddr = k.Members[coll].Addr
+	return k
+}
+
+// newC14KeysFor builds the identity universe for an explicit validator set (the set in force for
+// the certified view, in list order), explicit outsiders (at least one) and a collector that need
+// not be a member of the set (a certificate for the last view of a validator set is collected by
+// the producer of the next view, who may belong to the next set only).
+func newC14KeysFor(members, outs []*Acct, coll *Acct, idCert, idParent, idChild []byte) *c14Keys {
+	initEnv()
+	if len(members) == 0 || len(outs) == 0 {
+		panic("c14: empty validator set or no outsider")
+	}
+	n := len(members)
+	k := &c14Keys{N: n, Coll: -1, CollAddr: coll.Addr, Thr: C14Threshold(n), MemberSet: map[string]bool{}, built: map[C14Entry]*bftpb.QuorumCertSign{}, truth: map[C14Entry]string{}, memo: map[string]bool{}, bmemo: map[string]bool{}}
+	for i, a := range members {
+		if k.MemberSet[a.Addr] {
+			panic("c14: validator listed twice")
+		}
+		k.Members = append(k.Members, a)
+		k.MemberSet[a.Addr] = true
+		if a.Addr == coll.Addr {
+			k.Coll = i
+		}
+	}
+	for _, o := range outs {
+		if k.MemberSet[o.Addr] {
+			panic("c14: outsider is a member")
+		}
+		k.Outs = append(k.Outs, o)
+	}
+	k.IDCert, k.IDParent, k.IDChild = idCert, idParent, idChild
 	return k
 }
 
@@ -252,7 +285,7 @@ func (v c14Verdict) String() string {
 func (k *c14Keys) Judge(signs []*bftpb.QuorumCertSign) c14Verdict {
 	v := c14Verdict{Thr: k.Thr, Entries: len(signs)}
 	seen := map[string]bool{}
-	coll := k.Members[k.Coll].Addr
+	coll := k.CollAddr
 	bound := map[string]bool{}
 	for _, s := range signs {
 		a := k.validFor(s)
